@@ -126,6 +126,13 @@ func c05Gen(r *vfRand, n int, unpriv, relative bool) []c05Step {
 			s.op = vfPick(r, []string{"Mkdir", "Create", "Symlink", "MkdirAll", "Create", "Mkdir"})
 		}
 		switch s.op {
+		case "MkdirAll":
+			// now and then a path that ends in (or runs through) a "." element. Not for unprivileged callers: the
+			// server cleans "m/." to "m" before touching the file system, the kernel needs search permission on m
+			// to resolve it: a difference of lexical path handling, not of the operation.
+			if r.Intn(3) == 0 && !unpriv {
+				s.p1 = vfPick(r, []string{"nope/.", "d/e/.", "c/./sub/.", "d/./y", "nope/./q/./.", "a/.", "m/.", "d/e/z/."})
+			}
 		case "OpenFile":
 			acc := vfPick(r, []int{os.O_RDONLY, os.O_WRONLY, os.O_RDWR})
 			s.flags = acc
@@ -164,7 +171,8 @@ func c05Gen(r *vfRand, n int, unpriv, relative bool) []c05Step {
 			s.p1 = vfPick(r, []string{"a", "d", "d/x", "nope", "b"})
 			s.p2 = vfPick(r, []string{"l", "m", "d/y", "c"})
 		case "Glob":
-			s.p1 = vfPick(r, []string{"*", "d/*", "?", "[ab]", "*/*", "d/e/*", "nope/*", "d/[xy]", "a*"})
+			// (also patterns whose only special character is the escape, in the last element or in the directory part)
+			s.p1 = vfPick(r, []string{"*", "d/*", "?", "[ab]", "*/*", "d/e/*", "nope/*", "d/[xy]", "a*", "\\a", "d/\\x", "\\d/x", "\\d/*", "d/e/\\z", "[a-c]", "d/?", "l/*", "*/x"})
 		case "Walk":
 			s.p1 = vfPick(r, []string{".", "d", "d/e", "a"})
 		}
@@ -212,6 +220,12 @@ func c05Ref(s c05Side, st c05Step) (string, error) {
 	case "Mkdir":
 		return "", os.Mkdir(p1, 0o755)
 	case "MkdirAll":
+		// the path text as the caller wrote it (filepath.Join would clean "." elements away). Names with ".."
+		// stay cleaned on both sides: the server resolves ".." lexically, the kernel physically, which differs
+		// by design when an element before the ".." does not exist (yet).
+		if !strings.Contains(st.p1, "..") {
+			return "", os.MkdirAll(s.root+"/"+st.p1, 0o755)
+		}
 		return "", os.MkdirAll(p1, 0o755)
 	case "Create":
 		f, err := os.OpenFile(p1, os.O_RDWR|os.O_CREATE|os.O_TRUNC, 0o666)
@@ -385,6 +399,9 @@ func c05Sut(c *Client, s c05Side, st c05Step) (string, error) {
 	case "Mkdir":
 		return "", c.Mkdir(p1)
 	case "MkdirAll":
+		if !s.relative && !strings.Contains(st.p1, "..") {
+			return "", c.MkdirAll(s.root + "/" + st.p1)
+		}
 		return "", c.MkdirAll(p1)
 	case "Create":
 		f, err := c.Create(p1)
